@@ -327,18 +327,36 @@ func ruleC04Verify(rule string) ruleFn {
 			if f == nil {
 				continue
 			}
-			srcs := resultSources(f, sel.k)
-			if len(srcs) == 0 {
-				c.Bad(rule, fmt.Sprintf("%s | result %d", sel.fn, sel.k), "", "no source for the selected replica", nil)
-			}
-			for _, v := range srcs {
-				in, ok := v.(ssa.Instruction)
-				if !ok {
-					c.Bad(rule, fmt.Sprintf("%s | result %d", sel.fn, sel.k), "", "selected replica is not computed in the function", nil)
+			// the points where a (non-nil) candidate is selected: the assignment, i.e. the
+			// predecessor block of the phi edge carrying it (or the computation, if returned directly)
+			var sites []ssa.Instruction
+			seenB := map[*ssa.BasicBlock]bool{}
+			bad := false
+			for _, r := range Returns(f) {
+				if sel.k >= len(r.Results) {
 					continue
 				}
-				c.Guard(rule, f, []ssa.Instruction{in}, fmt.Sprintf("select result %d", sel.k), nil, atom("selection filter "+sel.atm, sel.atm))
+				v := strip(r.Results[sel.k])
+				if p, ok := v.(*ssa.Phi); ok {
+					for _, e := range allPhiEdges(p) {
+						if isNilConst(strip(e.val)) || seenB[e.from] {
+							continue
+						}
+						seenB[e.from] = true
+						sites = append(sites, e.from.Instrs[len(e.from.Instrs)-1])
+					}
+				} else if isNilConst(v) {
+					continue
+				} else if in, ok := v.(ssa.Instruction); ok {
+					sites = append(sites, in)
+				} else {
+					bad = true
+				}
 			}
+			if len(sites) == 0 || bad {
+				c.Bad(rule, fmt.Sprintf("%s | result %d", sel.fn, sel.k), "", "no source for the selected replica", nil)
+			}
+			c.Guard(rule, f, sites, fmt.Sprintf("select result %d", sel.k), nil, atom("selection filter "+sel.atm, sel.atm))
 		}
 		c.Floor(rule, 18)
 	}
@@ -546,14 +564,9 @@ func ruleC05Monitor(rule string) ruleFn {
 					_ = i
 					if isNilConst(e.val) {
 						// edge must come (transitively) from a block controlled by Mode == RW
-						ctl := controlAtoms(fn, R, e.from)
-						has := false
-						for _, a := range ctl {
-							if a == `+"RW" -$0.replicas[*].Mode ==0` {
-								has = true
-							}
-						}
-						if !has {
+						site := e.from.Instrs[len(e.from.Instrs)-1]
+						ge := atomEdges(fn, R, `+"RW" -$0.replicas[*].Mode ==0`)
+						if len(Query{Fn: fn, IsSite: func(in ssa.Instruction) bool { return in == site }, GenEdge: ge}.Run()) > 0 {
 							phiOK = false
 						}
 					} else if !sameValue(e.val, fn.Params[1]) {
@@ -1237,32 +1250,67 @@ func ruleC13Ctl(c *Ctx) {
 	}
 	if fn := c.Anchor(rule, fRepl+"GetLatestSnapshot"); fn != nil {
 		R := NewRenderer(fn)
-		var okRets []ssa.Instruction
-		for _, r := range nilErrorReturns(fn) {
-			okRets = append(okRets, r)
-		}
+		okRets := successReturns(fn)
 		c.Guard(rule, fn, okRets, "return snapshot,nil", nil,
 			called("(*sync.WaitGroup).Wait"),
 			atom("no fetch failed", "+len(var(complit).Errors) ==0"),
 			atom("a chain from every backend", "+len($0.backends) -len(makemap) ==0"))
-		// disagreement / short chain edges lead to error: the nil return must not be reachable through them
-		bad := atomEdges(fn, R, "+makemap[*][+1] -phi{\"\" | makemap[*][+1]} !=0")
-		_ = bad
+		// the agreement loop over the collected chains: in this function, or in a helper that is
+		// handed the map of chains (its call then sits behind the three facts above, being returned)
+		exec, ER, M := fn, R, "makemap"
+		hasAgree := func(f *ssa.Function, FR *Renderer, m string) bool {
+			for _, ea := range allAtoms(f, FR) {
+				s := ea.Atom.String()
+				if strings.HasPrefix(s, "+"+m+"[*][+1] -phi{") && strings.HasSuffix(s, "!=0") {
+					return true
+				}
+			}
+			return false
+		}
+		if !hasAgree(fn, R, M) {
+			eachInstr(fn, func(in ssa.Instruction) {
+				cl, ok := in.(*ssa.Call)
+				if !ok || exec != fn {
+					return
+				}
+				h := cl.Call.StaticCallee()
+				if h == nil || h.Blocks == nil || !isJivaFn(h) || h == fn {
+					return
+				}
+				for k, a := range callArgs(R, cl) {
+					HR := NewRenderer(h)
+					if a == "makemap" && hasAgree(h, HR, fmt.Sprintf("$%d", k)) {
+						exec, ER, M = h, HR, fmt.Sprintf("$%d", k)
+						c.Guard(rule, fn, []ssa.Instruction{in}, "agreement check by "+FnName(h), nil,
+							called("(*sync.WaitGroup).Wait"),
+							atom("no fetch failed", "+len(var(complit).Errors) ==0"),
+							atom("a chain from every backend", "+len($0.backends) -len(makemap) ==0"))
+						// its verdict is what the function returns
+						for _, r := range okRets {
+							rr := r.(*ssa.Return)
+							if ex, ok := strip(rr.Results[len(rr.Results)-1]).(*ssa.Extract); !ok || ex.Tuple != ssa.Value(cl) {
+								c.Bad(rule, FnName(fn)+" | returns the helper's verdict", c.P.InstrPos(r), "a success return does not forward the error of "+FnName(h), nil)
+							}
+						}
+					}
+				}
+			})
+		}
+		execOK := nilErrorReturns(exec)
 		agree, short := false, false
-		for _, ea := range allAtoms(fn, R) {
+		for _, ea := range allAtoms(exec, ER) {
 			s := ea.Atom.String()
-			if strings.HasPrefix(s, "+makemap[*][+1] -phi{") && strings.HasSuffix(s, "!=0") {
+			if strings.HasPrefix(s, "+"+M+"[*][+1] -phi{") && strings.HasSuffix(s, "!=0") {
 				agree = true
 				// that edge must lead only to error returns
-				ws := afterEdge(fn, func(b *ssa.BasicBlock, k int) bool { return b == ea.B && k == ea.Succ }, nil, nil, func(in ssa.Instruction) bool {
-					for _, r := range okRets {
+				ws := afterEdge(exec, func(b *ssa.BasicBlock, k int) bool { return b == ea.B && k == ea.Succ }, nil, nil, func(in ssa.Instruction) bool {
+					for _, r := range execOK {
 						if r == in {
 							return true
 						}
 					}
 					return false
 				})
-				// loop back edges make the nil return reachable after a disagreement only if the edge does not return: check the successor block returns an error
 				succ := ea.B.Succs[ea.Succ]
 				if r, ok := succ.Instrs[len(succ.Instrs)-1].(*ssa.Return); ok && provablyNonNilError(r.Results[1]) {
 					c.OK(rule, FnName(fn)+" | disagreement on chain[1] is an error", c.P.InstrPos(r), "snapName != chain[1] returns an error", true)
@@ -1270,7 +1318,7 @@ func ruleC13Ctl(c *Ctx) {
 					c.Bad(rule, FnName(fn)+" | disagreement on chain[1] is an error", "", "replicas disagreeing on their latest snapshot do not produce an error", c.witnessOr(ws))
 				}
 			}
-			if s == "-len(makemap[*]) +1 >=0" {
+			if s == "-len("+M+"[*]) +1 >=0" {
 				short = true
 			}
 		}
